@@ -328,8 +328,14 @@ func init() {
 	eng.Register(&eng.Check{
 		ID: "C01", Level: "exploration", Pre: WriteCorpusCache, HangBound: 600 * time.Second,
 		Rule: "every string over the rune alphabet Σ_r (33 lexical-class representatives) up to the phase's length, plus raw-byte/BOM/UTF-16 strings, token strings over Σ_t, nesting-depth family, corpus and its single-token neighbours; each fed to d2parser.Parse (both position modes) and ParseKey/ParseMapKey/ParseValue; non-trivial = the parse produced at least one node or error; all inputs are distinct by construction of the prefix tree",
-		Assumptions: []string{"inputs beyond the stated lengths are covered only through the depth family and corpus", "a worker process death (stack overflow, OOM) is attributed to the input in flight via an mmap'd cursor file"},
+		Assumptions: []string{"inputs beyond the stated lengths are covered only through the depth family and corpus", "a worker process death (stack overflow, OOM) is attributed to the input in flight via an mmap'd cursor file", "the two families that open a block string with a run of n pipes stop at n = 30 000: parse time is quadratic in n there (64 s at 10^5), which terminates but cannot be told from a hang by a wall-clock bound"},
 		Oracles: map[string]eng.Oracle{"parse": c01Parse(false), "parse16": c01Parse(true), "entry": c01Entry, "depth": c01Depth},
+		DeathClass: func(class, oracle, in string) string {
+			if p := strings.Split(in, "\x00"); oracle == "depth" && len(p) >= 3 {
+				return class + ":nesting-depth-" + p[1] // a stack overflow at depth 10^6 and one at depth 40 are different findings
+			}
+			return class
+		},
 		Run: func(w *eng.W) {
 			kb := w.Pick(4, 5)
 			for k := 0; k <= kb; k++ {
@@ -389,12 +395,18 @@ func init() {
 			}
 			w.Phase("depth-family", func() {
 				pairs := [][2]string{{"{", "}"}, {"[", "]"}, {"a: {", "}"}, {"a: [", "]"}, {"(", ")"}, {"|", "|"}, {"\"\"\"", "\"\"\""}, {"${", "}"}, {"a.", ""}, {"a -> ", ""}, {"*.", ""}, {"x: |", "|"}, {"(a -> b)[", "]"}, {"a: {b: [", "]}"}}
-				sizes := []int{1, 10, 100, 1000, 10000, 100000}
+				sizes := []int{1, 10, 100, 1000, 10000, 30000, 100000}
 				if w.Thorough() {
 					sizes = append(sizes, 1000000)
 				}
 				for _, p := range pairs {
 					for _, n := range sizes {
+						if strings.HasSuffix(p[0], "|") && n > 30000 {
+							// a run of n pipes opens a block string whose closing delimiter is searched for again at every later pipe:
+							// measured 1.1 s at 10^4, 6.4 s at 3*10^4, 64 s at 10^5, 680 s at 3*10^5 (quadratic, but it terminates, which
+							// is all the statement asks); a wall-clock hang bound cannot tell that from a hang, so the family stops here
+							continue
+						}
 						w.Eval("depth", fmt.Sprintf("%s\x00%d\x00%s", p[0], n, p[1]))
 						w.Eval("depth", fmt.Sprintf("%s\x00%d\x00%s", p[0], n, ""))
 					}
